@@ -64,6 +64,13 @@ CHECKS.update({
             "For every field kind x access in r/w/rw/none the parsed real expansion must contain exactly the granted functions with the declared signatures (getter, with_, set_, builder step) and none of the withheld ones; "
             "use of a granted accessor must compile, use of a withheld one must not; that read-only bits cannot change is the put_spec frame of every mutator, proved by Kani.", INV_NOTE),
 })
+CHECKS.update({
+    "C15": ("other", "4.5, 5 C15", "rustc const evaluation of every generated operation against spec.rs (bounded stand-in) + inherited Kani proofs",
+            "Every operation listed in C15 (ZERO, DEFAULT, new_with_raw_value, raw_value, every getter, every with_, builder(), steps, build(), both bitenum conversions) of ~60 corpus declarations initialises a const and is "
+            "compared with spec.rs by const assertions (about 3700 const items, boundary + seeded inputs); the same operations are recomputed natively (black_box inputs, debug and release) and compared with the consts. "
+            "Const-evaluability is a rustc fact no deductive verifier decides; equality for ALL inputs is inherited from the X proofs.",
+            "BOUNDED stand-in on sampled inputs for const-evaluability; trusted: rustc const evaluator, determinism of safe integer code; all-input equality relies on the Kani proofs of C01-C08/C13."),
+})
 NOT_YET = {}
 
 
